@@ -1,133 +1,8 @@
-// C15 (plan B): the lazy multipart body's own state machine, without going through core::fmt.
-
-include!("hmacro.rs");
-
-mod verif_mp {
-    use super::*;
-
-    pub fn fixed_boundary() -> String {
-        let mut s = String::with_capacity(16);
-        s.push_str("AAAAAAAAAAAAAAAA");
-        s
-    }
-
-    /// PreparedFields built directly (text block, up to two streams with their header blocks, end
-    /// boundary: all symbolic bytes of enumerated lengths), then read with caller buffers of `rd`
-    /// bytes until Ok(0): the output is text ‖ (header ‖ data of each stream, last added first) ‖
-    /// end boundary, each exactly once, then Ok(0) for ever.
-    fn read_all<const T: usize, const H1: usize, const D1: usize, const H2: usize, const D2: usize, const E: usize>(nstreams: usize, rd: usize) {
-        let text: [u8; T] = kani::any();
-        let h1: [u8; H1] = kani::any();
-        let d1: [u8; D1] = kani::any();
-        let h2: [u8; H2] = kani::any();
-        let d2: [u8; D2] = kani::any();
-        let e: [u8; E] = kani::any();
-        let mut ee = [0u8; E];
-        let mut i = 0;
-        while i < E {
-            kani::assume(e[i] < 0x80);
-            ee[i] = e[i];
-            i += 1;
-        }
-        let mut streams: Vec<PreparedField> = Vec::with_capacity(2);
-        if nstreams >= 1 {
-            streams.push(PreparedField {
-                header: Cursor::new(h1.to_vec()),
-                stream: Box::new(Cursor::new(&d1[..])),
-            });
-        }
-        if nstreams >= 2 {
-            streams.push(PreparedField {
-                header: Cursor::new(h2.to_vec()),
-                stream: Box::new(Cursor::new(&d2[..])),
-            });
-        }
-        let mut pf = PreparedFields {
-            text_data: Cursor::new(text.to_vec()),
-            streams,
-            end_boundary: Cursor::new(unsafe { String::from_utf8_unchecked(ee.to_vec()) }),
-            content_len: None,
-        };
-        // expected image
-        let mut want = [0u8; 48];
-        let mut n = 0;
-        let mut put = |b: &[u8], want: &mut [u8; 48], n: &mut usize| {
-            let mut k = 0;
-            while k < b.len() {
-                want[*n] = b[k];
-                *n += 1;
-                k += 1;
-            }
-        };
-        put(&text, &mut want, &mut n);
-        if nstreams >= 2 {
-            put(&h2, &mut want, &mut n);
-            put(&d2, &mut want, &mut n);
-        }
-        if nstreams >= 1 {
-            put(&h1, &mut want, &mut n);
-            put(&d1, &mut want, &mut n);
-        }
-        put(&ee, &mut want, &mut n);
-
-        let mut got = 0;
-        let mut buf = [0u8; 8];
-        let mut reads = 0;
-        let mut eof = false;
-        while reads < n + 3 {
-            match pf.read(&mut buf[..rd]) {
-                Ok(0) => {
-                    eof = true;
-                }
-                Ok(m) => {
-                    assert!(!eof, "C15: multipart body produced data after its end");
-                    let mut j = 0;
-                    while j < m {
-                        assert!(got + j < n && buf[j] == want[got + j], "C15: multipart body bytes differ from the prepared parts (lost, duplicated or reordered bytes)");
-                        j += 1;
-                    }
-                    got += m;
-                }
-                Err(e) => {
-                    std::mem::forget(e);
-                    assert!(false, "C15: reading the multipart body failed");
-                }
-            }
-            reads += 1;
-        }
-        assert!(eof && got == n, "C15: multipart body truncated");
-        kani::cover!(true, "must: body read");
-        std::mem::forget(pf);
-    }
-
-    verif_harness!(c15_q_read_text3_rd1, 60, { read_all::<3, 0, 0, 0, 0, 4>(0, 1) });
-    verif_harness!(c15_q_read_one_stream_rd2, 60, { read_all::<0, 3, 2, 0, 0, 4>(1, 2) });
-    verif_harness!(c15_q_read_text_two_streams_rd3, 60, { read_all::<2, 2, 3, 2, 1, 3>(2, 3) });
-    verif_harness!(c15_q_read_empty_stream_rd8, 60, { read_all::<1, 2, 0, 2, 2, 2>(2, 8) });
-    verif_harness!(c15_t_read_text_two_streams_rd1, 60, { read_all::<2, 2, 3, 2, 1, 3>(2, 1) });
-    verif_harness!(c15_t_read_text_two_streams_rd7, 60, { read_all::<3, 3, 5, 2, 0, 4>(2, 7) });
-    verif_harness!(c15_t_read_nothing, 60, { read_all::<0, 0, 0, 0, 0, 0>(0, 2) });
-    verif_harness!(c15_qtwin_read, 60, {
-        read_all::<0, 3, 2, 0, 0, 4>(1, 2);
-        assert!(false, "twin: must be reported as FAILURE");
-    });
-
-    /// boundary() on what from_fields stores for a form with `B` as boundary: never panics and
-    /// returns B.  The empty form goes through the real from_fields (gen_boundary stubbed).
-    #[kani::proof]
-    #[kani::unwind(40)]
-    #[kani::stub(crate::multipart_crate::gen_boundary, fixed_boundary)]
-    fn c15_q_empty_form_boundary() {
-        let mut fields: Vec<Field> = Vec::new();
-        let r = PreparedFields::from_fields(&mut fields);
-        match r {
-            Ok(pf) => {
-                let b = pf.boundary();
-                assert!(b.len() == 16, "C15: boundary of an empty form is not the generated boundary");
-                kani::cover!(true, "must: boundary taken");
-                std::mem::forget(pf);
-            }
-            Err(_) => assert!(false, "C15: preparing an empty form failed"),
-        }
-    }
-}
+// C15: NOT decided (see DESIGN.md section 9 and MANIFEST not_applicable).  Measured:
+//  * MultipartBuilder::build / PreparedFields::from_fields, even for the EMPTY form with gen_boundary
+//    stubbed, do not get through `format!("\r\n--{}", ..)`: symbolic execution stalls in
+//    core::fmt::write (> 300 s, no result);
+//  * PreparedFields::read on a directly constructed value (plan B) does not finish either: the part
+//    streams are `Box<dyn Read>` stored in a heap Vec, the virtual call is resolved by CBMC to a
+//    case split whose lengths are not constant, and `Cursor::read_vectored`/copy loops are unwound
+//    to the bound (> 300 s for one stream of 2 bytes).
